@@ -325,3 +325,56 @@ def _sr_finish(c, outcome, args, old):
 
 _upgrade(STEP + "set_resources", ["C12", "C09"],
          args=dict(self=C03_rerun._self, resources=ty.Opt(ty.MapOf(ty.Str, ty.Int))), finish=_sr_finish)
+
+
+# ---------------------------------------------------------------- Node._dependencies (behind sources() / sinks())
+
+
+def _dep_self(args):
+    db = DbStub("db", [("SELECT node.i, kind, label FROM node JOIN dependency", ty.TupleOf(ty.Int, ty.Str, ty.Str))])
+    n = fresh_node(common.Node, None, "self")
+    n._fields["graph"] = _PGraph(db)
+    return n
+
+
+def _dep_finish(c, outcome, args, old):
+    """The nodes at the other end of this node's edges in the direction asked for, of the kind asked for (if any),
+    detached ones only on request (C09 / C03: consumers are marked pending detached ones included; readiness looks at
+    attached sources only)."""
+    if outcome[0] not in ("return", "cut"):
+        return
+    st = [e for e in c.trace if e.kind == "sql"]
+    nt = args["node_type"]
+    if isinstance(nt, sym.SymOpt):
+        nt = sym.resolve(nt)
+    up, det = tm.mk_bool(args["upstream"]), tm.mk_bool(args["include_detached"])
+    ok = len(st) == 1 and isinstance(st[0].args, (tuple, list)) and len(st[0].args) == (2 if nt is not None else 1)
+    cases = []
+    for u in (True, False):
+        for d in (True, False):
+            want = "SELECT node.i, kind, label FROM node JOIN dependency ON node.i = " + ("source WHERE sink = ?" if u else "sink WHERE source = ?")
+            if nt is not None:
+                want += " AND kind = ?"
+            if not d:
+                want += " AND NOT detached"
+            hit = ok and sqlfront.match_key(st[0].sql) == sqlfront.match_key(want)
+            cases.append(tm.And(tm.mk_bool(hit), tm.Iff(up, tm.mk_bool(u)), tm.Iff(det, tm.mk_bool(d))))
+    eqs = [tm.Eq(I(st[0].args[0]), I(args["self"].i))] if ok else []
+    if ok and nt is not None:
+        eqs.append(tm.Eq(S(st[0].args[1]), S(nt.k)))
+    c.prove("selects_the_other_ends_of_this_nodes_edges", tm.And(tm.mk_bool(ok), tm.Or(*cases), *eqs), kind="sql",
+            detail=str([e.sql for e in st]))
+
+
+from vc.engine import contract  # noqa: E402
+
+
+def _either(name):
+    """True on one path, False on the other (a flag the function builds its statement text from)."""
+    c = cur()
+    return bool(c.fork(c.fresh(name + ".true", tm.BOOL)))
+
+
+contract("stepup/core/trellis.py::Node._dependencies", props=["C09", "C03", "C10"])(type("node_dependencies", (), dict(
+    args=dict(self=_dep_self, node_type=ty.Opt(ty.Make(_PKind)), include_detached=ty.Make(_either), upstream=ty.Make(_either)),
+    finish=staticmethod(_dep_finish), modifies=[], loops={0: LoopSpec(step_post=_products_iteration)})))
